@@ -470,6 +470,23 @@ def shutdown_at(seed, proto):
         b.op(op="arm_fault", nth=1)
         b.send()
         b.op(op="step", k=rng.randrange(0, 5))
+    if rng.random() < 0.25:
+        # `await s.close(); s.open_socket()` in one user coroutine (no loop turn between the two calls),
+        # at the same chosen instant: the socket is open afterwards and has to behave like a fresh one
+        if rng.random() < 0.6:               # a bare socket: nobody listens to connection changes
+            b.op(op="unsub", who="c", kind="connection")
+        i1, i2 = b.nid, b.nid + 1
+        b.nid += 2
+        b.op(op="call_seq", calls=[{"id": i1, "method": "close"}, {"id": i2, "method": "open_socket"}])
+        b.op(op="step", k=rng.randrange(0, 4))
+        b.op(op="quiesce")
+        b.op(op="resolve_all", how=rng.choice(["ok", "refuse"]))
+        b.op(op="quiesce")
+        b.op(op="advance", by=rng.choice([2125, 2625, 5000]))
+        b.op(op="quiesce")
+        b.heal()
+        b.shutdown()
+        return b.script, {"enc": b.enc, "blockers": [], "proto": proto, "profile": "close_reopen", "seed": seed}
     b.shutdown(k=rng.randrange(0, 7))
     if rng.random() < 0.5:                   # reversible: a later open works as on a fresh object
         b.call("open_socket")
